@@ -253,7 +253,10 @@ class GridPoints:
         self._grid_mapping_table = None
 
         if self._is_shift is None:
+            # -(q + s) is not a point of a mesh with a general shift s, so
+            # neither point-group nor time-reversal reduction is possible.
             self._is_mesh_symmetry = False
+            self._is_time_reversal = False
             self._is_shift = self._shift2boolean(None, is_gamma_center=is_gamma_center)
             self._set_grid_points()
             self._ir_qpoints += q_mesh_shift / self._mesh
